@@ -320,6 +320,16 @@ namespace ip {
 			post(m_io_service, aux::make_malloc(std::bind(std::move(m_connect_handler)
 				, boost::system::error_code(error::operation_aborted))));
 			m_connect_handler = nullptr;
+			// the connection was never established
+			m_channel.reset();
+			// and whatever is still addressed to the abandoned attempt (its
+			// SYN-ACK, data from the peer that accepted it) must not reach a
+			// later connection of this socket
+			if (m_forwarder)
+			{
+				m_forwarder->reset();
+				m_forwarder = std::make_shared<aux::sink_forwarder>(this);
+			}
 		}
 	}
 
